@@ -135,6 +135,28 @@ def run(ctx):
                 if ra != 0 or rb != 0 or oa != ob:
                     res.violations.append(vlib.Violation("equivalent spellings give different output", {"argv_a": a + extra, "argv_b": b + extra},
                                                          expected=ob[:400].decode("latin1"), observed=oa[:400].decode("latin1")))
+        # --refgroup G == --include @G for nested user-defined groups (own rules AND every ancestor's)
+        import refcheck as RC
+        s2, c2 = RC.base_scenario()
+        for n in RC.NESTED_REFS:
+            s2.refs.append((n, c2))
+        s2.compute()
+        order2 = s2.enum_gitlike([c2])
+        for it in range(25 if quick else 400):
+            defs = RC.nested_defs(rng)
+            cfg = RC.defs_to_cfg(defs)
+            syms = sorted({s0 for s0, _ in defs} | {".".join(s0.split(".")[:k]) for s0, _ in defs for k in range(1, s0.count(".") + 1)})
+            g = rng.choice(syms)
+            extra = rng.choice([["-v"], ["--json"], ["--json", "--json-version=2"], ["-v", "--show-refs"]])
+            ra, oa, ea = eng.run_fake(s2, order2, ["--refgroup", g] + extra + ["--no-progress"], config=cfg, extra_args=[])[:3]
+            rb, ob, eb = eng.run_fake(s2, order2, ["--include", "@" + g] + extra + ["--no-progress"], config=cfg, extra_args=[])[:3]
+            ea = b"".join(l for l in ea.splitlines(True) if not l.startswith(b"Flag --refgroup has been deprecated"))
+            res.case(("nested", tuple(cfg), g, tuple(extra)), True)
+            if ra != rb or oa != ob or (extra[-1] == "--show-refs" and ea != eb):
+                res.violations.append(vlib.Violation("--refgroup G and --include @G give different output for a nested refgroup",
+                                                     {"gitconfig": cfg, "group": g, "extra": extra, "refs": [n.decode() for n in RC.NESTED_REFS]},
+                                                     expected=ob[:600].decode("latin1") + eb[:300].decode("latin1"),
+                                                     observed=oa[:600].decode("latin1") + ea[:300].decode("latin1")))
         allopts = THR_OPTS + NAME_OPTS + JSON_OPTS + PROG_OPTS
         for _ in range(60 if quick else 1500):
             cfgsel = {k: rng.choice(v) for k, v in CFG.items()}
